@@ -35,6 +35,7 @@ import (
 	"strings"
 	"sync"
 
+	sasl "github.com/emersion/go-sasl"
 	"github.com/fluffle/goirc/client"
 
 	"verif/vx"
@@ -212,10 +213,23 @@ func (r *c02Res) verdict() (string, string) {
 }
 
 // c02Session sends prelude, the lines, the sync marker and the tail over one connection.
-func c02Session(lines []string, tracking bool) *c02Res {
+func c02Session(lines []string, tracking bool) *c02Res { return c02SessionSasl(lines, tracking, -1) }
+
+// c02SessionSasl: stage >= 0 configures capability negotiation and SASL PLAIN and brings the negotiation to
+// stage 0 (CAP LS sent, nothing answered), 1 (sasl acknowledged, AUTHENTICATE PLAIN sent, the initial response
+// pending) or 2 (SASL succeeded, CAP END sent) before the probe lines arrive.
+func c02SessionSasl(lines []string, tracking bool, stage int) *c02Res {
 	r := &c02Res{}
 	o := RunSeq(vx.Options{}, func(env *vx.Env) {
-		s, err := StartSession(env, "me", nil, func(c *client.Conn) {
+		var mod func(cfg *client.Config)
+		if stage >= 0 {
+			mod = func(cfg *client.Config) {
+				cfg.EnableCapabilityNegotiation = true
+				cfg.Capabilites = []string{"multi-prefix"}
+				cfg.Sasl = sasl.NewPlainClient("", "u", "p")
+			}
+		}
+		s, err := StartSession(env, "me", mod, func(c *client.Conn) {
 			if tracking {
 				c.EnableStateTracking()
 			}
@@ -228,6 +242,12 @@ func c02Session(lines []string, tracking bool) *c02Res {
 		if err != nil {
 			r.Err = err.Error()
 			return
+		}
+		if stage >= 1 {
+			s.Feed(":irc.example CAP * LS :multi-prefix sasl", ":irc.example CAP me ACK :multi-prefix sasl")
+		}
+		if stage >= 2 {
+			s.Feed("AUTHENTICATE +", ":irc.example 903 me :SASL authentication successful")
 		}
 		s.Feed(c02Welcome, c02JoinMe, c02JoinX)
 		n0 := len(s.Wire())
@@ -274,6 +294,24 @@ func c02Input(lines []string, tracking bool) string {
 // offending line (halving, re-running sessions), reports it, removes it and
 // repeats, so that every offender of the batch is found.
 func c02CheckBatch(fb *failBook, family string, batch []string, tracking bool) {
+	c02CheckBatchSasl(fb, family, batch, tracking, -1)
+}
+
+func c02CheckBatchSasl(fb *failBook, family string, batch []string, tracking bool, stage int) {
+	c02Session := func(lines []string, tracking bool) *c02Res { return c02SessionSasl(lines, tracking, stage) }
+	c02Input := func(lines []string, tracking bool) string {
+		if stage >= 0 {
+			return fmt.Sprintf("sasl-stage=%d ", stage) + c02Input(lines, tracking)
+		}
+		return c02Input(lines, tracking)
+	}
+	c02SessionParams := func(lines []string, tracking bool) map[string]interface{} {
+		m := c02SessionParams(lines, tracking)
+		if stage >= 0 {
+			m["sasl_stage"] = stage
+		}
+		return m
+	}
 	fails := func(sub []string) bool {
 		o, _ := c02Session(sub, tracking).verdict()
 		return o != ""
@@ -344,6 +382,43 @@ func c02ProbeLines(verb string, src MSrc, maxParams int) []string {
 		}
 	}
 	return out
+}
+
+// c02SaslVerbs: the verbs whose built-in handlers look at the negotiation / SASL state.
+var c02SaslVerbs = []string{"CAP", "AUTHENTICATE", "903", "904", "908", "001", "433", "NICK"}
+
+func c02SaslProbeJob(name, verb string, src MSrc, maxParams int) Job {
+	return Job{Name: name, Cost: 30, Run: func(jc *JobCtx) *JobResult {
+		e := NewEnum(name)
+		fb := newFailBook(e)
+		lines := c02ProbeLines(verb, src, maxParams)
+		if verb == "AUTHENTICATE" {
+			// payloads: valid / invalid base64, the empty-data marker, a 400-byte chunk
+			for _, a := range []string{"+", "Kw==", "AHUAcA==", "!!!", "=", strings.Repeat("QUFB", 100)} {
+				m1, m2 := Msg{Src: src, Verb: verb, Mid: []string{a}}, Msg{Src: src, Verb: verb, HasTrail: true, Trail: a}
+				lines = append(lines, m1.Wire(), m2.Wire())
+			}
+		}
+		for stage := 0; stage <= 2; stage++ {
+			for i := 0; i < len(lines); i += c02Batch {
+				j := i + c02Batch
+				if j > len(lines) {
+					j = len(lines)
+				}
+				for _, l := range lines[i:j] {
+					e.Case(fmt.Sprintf("S%d|%s", stage, l))
+				}
+				c02CheckBatchSasl(fb, "session-probe-sasl", lines[i:j], false, stage)
+				if fb.TooMany() || jc.Expired() {
+					e.Incomplete(fmt.Sprintf("stopped at stage %d after %d of %d probe lines", stage, j, len(lines)))
+					fb.Flush()
+					return e.Done()
+				}
+			}
+		}
+		fb.Flush()
+		return e.Done()
+	}}
 }
 
 func c02ProbeJob(name, verb string, src MSrc, tracking bool, maxParams int) Job {
@@ -624,6 +699,12 @@ func c02Jobs(tier string) []Job {
 			}
 		}
 	}
+	// (3b) the negotiation-sensitive verbs again with capability negotiation and SASL PLAIN configured, at three stages
+	for _, v := range c02SaslVerbs {
+		for si, src := range c02ProbeSrcs {
+			jobs = append(jobs, c02SaslProbeJob(fmt.Sprintf("c02/probe-sasl/params<=%d/verb=%s/src=%d", maxParams, v, si), v, src, maxParams))
+		}
+	}
 	// (4)
 	const parts = 16
 	for _, tr := range []bool{false, true} {
@@ -642,14 +723,14 @@ func init() {
 	Register(&Prop{
 		ID: "C02",
 		Rule: "(1) every string over {@ : space ! ; = \\ \\x01 a # 1} up to length 6 (quick) / 7 (thorough) and (2) every concatenation of up to 4 / 5 tokens (24 verbs and numerics, 12 punctuation / prefix tokens) given to ParseLine, with Text/Target/Public on every non-nil result; " +
-			"(3) every probe line verb x 0-4 / 0-6 middle parameters over {me,#c,x} (CAP: plus LS, ACK, NAK, at most 4) x 6 trailings (absent, empty, two words, the own nick, a bare minus sign, odd modifier tokens) x 4 sources for the 30 verbs with built-in handling, sent through a connection 100 per session with state tracking off and on, each session closed by PING :sync-end and a well-formed PRIVMSG; " +
+			"(3) every probe line verb x 0-4 / 0-6 middle parameters over {me,#c,x} (CAP: plus LS, ACK, NAK, at most 4) x 6 trailings (absent, empty, two words, the own nick, a bare minus sign, odd modifier tokens) x 4 sources for the 30 verbs with built-in handling, sent through a connection 100 per session with state tracking off and on, each session closed by PING :sync-end and a well-formed PRIVMSG; (3b) the same for the 8 negotiation-sensitive verbs (plus base64 / non-base64 AUTHENTICATE payloads) with negotiation and SASL PLAIN configured at 3 negotiation stages; " +
 			"(4) every sequence of up to 2 / 3 lines over one representative per outcome class (class = direct parse result, session outcome, warn/error log formats, verbs written in response; computed over a pool of about 8000 candidate lines) through a connection; " +
 			"distinct = distinct line (1,2), distinct (tracking, line) (3), distinct (tracking, sequence) (4)",
 		Assumptions: []string{
 			"only the exhaustive, length-bounded part of the quantifier is covered; the 'randomly and coverage-guided beyond that' part is sampling/fuzzing, a different technique, and is not done here",
 			"the alphabet has one representative per byte class the parser and the built-in handlers branch on; CR and LF cannot occur inside a line (recv splits on LF and trims CR/LF)",
 			"sessions run under the default schedule of the vx runtime; all lines of a session arrive in one segment after a 001 / JOIN prelude; a panic caught by the configured Recover (handlers) is not a crash, a panic on recv/runLoop/send is",
-			"SASL is not configured, so the AUTHENTICATE handler returns early; capability negotiation is off (the CAP handler still runs on every CAP line)",
+			"families (3) and (4) run without SASL and with capability negotiation off (the CAP handler still runs on every CAP line); family (3b) repeats the probes of CAP, AUTHENTICATE, 903, 904, 908, 001, 433 and NICK with negotiation on and SASL PLAIN configured, before the server's CAP LS answer, with the initial response pending, and after 903",
 			"teardown after the tail line (server EOF) is part of the session, but only a crash there is judged, not a deadlock (that is C07)",
 		},
 		Jobs: c02Jobs,
@@ -673,6 +754,7 @@ func c02Replay(v *Violation) int {
 		Lines    []string `json:"lines"`
 		Tracking bool     `json:"tracking"`
 		Mode     string   `json:"mode"`
+		Stage    *int     `json:"sasl_stage"`
 	}
 	if err := json.Unmarshal(b, &p); err != nil || len(p.Lines) == 0 {
 		fmt.Println("no lines recorded; input:", v.Input)
@@ -691,7 +773,11 @@ func c02Replay(v *Violation) int {
 			}
 		}
 	} else {
-		r := c02Session(p.Lines, p.Tracking)
+		stage := -1
+		if p.Stage != nil {
+			stage = *p.Stage
+		}
+		r := c02SessionSasl(p.Lines, p.Tracking, stage)
 		for _, w := range r.Wire {
 			fmt.Println("client wrote:", Q(w))
 		}
